@@ -49,10 +49,11 @@ MATCHERS = {
     "C18-grid-value-at-grid-point": lambda d: d["op"] == "grid.value_at",
     "C18-grid-levels-heap": lambda d: d["op"] == "grid.levels" and d.get("overfull") is True,
     "C18-grid-integral-p-flat": lambda d: d.get("flat") is True and d.get("form") == "grid" and (
-        d["op"] in ("grid.integral_p", "grid.integral_p_level") or (d["op"] == "grid.distance" and d.get("p") == 2)),
-    "C18-sup-distance-extra-levels": lambda d: d["op"] in ("exact.distance", "grid.distance") and d.get("p") == "inf"
+        d["op"] in ("grid.integral_p", "grid.integral_p_level") or (d["op"] in ("grid.distance", "grid.free_distance") and d.get("p") == 2)),
+    "C18-sup-distance-extra-levels": lambda d: d["op"] in ("exact.distance", "grid.distance", "exact.free_distance",
+                                                              "grid.free_distance") and d.get("p") == "inf"
     and d.get("negzero") is True,
-    "C18-grid-sup-distance-integer-abs": lambda d: d["op"] == "grid.distance" and d.get("p") == "inf"
+    "C18-grid-sup-distance-integer-abs": lambda d: d["op"] in ("grid.distance", "grid.free_distance") and d.get("p") == "inf"
     and d.get("nonint") is True,
 }
 
